@@ -23,7 +23,8 @@ ASSUMPTIONS = [
     '"up to the requested final time" is inclusive (start <= final_time), as in chi\'s own mask and repository test',
     'an indefinite regimen with final_time=None lists only its first dose (documented)']
 REQUIRED = ['sim', 'table', 'data', 'direct', 'indirect', 'single', 'finite', 'indefinite', 'protocol',
-            'ft:before', 'ft:at_dose', 'ft:between', 'ft:none', 'start>0', 'bolus', 'infusion', 'lib_pk']
+            'ft:before', 'ft:at_dose', 'ft:between', 'ft:none', 'start>0', 'bolus', 'infusion', 'lib_pk',
+            'rerouted', 'rerouted:same_component', 'route:global_state', 'data:undosed_after_dosed']
 
 
 @st.composite
@@ -88,6 +89,17 @@ def _spec(draw):
     ms = None if lib else sbmlgen.draw_model(draw, max_states=4)
     n_comp = 1 if lib else len(ms['comps'])
     admin = dict(comp=draw(st.integers(0, n_comp - 1)), direct=not gen.chance(draw, 0.4))
+    if not lib and ms['gstates'] and gen.chance(draw, 0.35):
+        # the drug enters a state variable of the 'global' component (index into compartments + global states)
+        admin['comp'] = n_comp + draw(st.integers(0, len(ms['gstates']) - 1))
+    if not lib and gen.chance(draw, 0.35):
+        # the route was first set to another state variable / flag and then changed (only the last call counts)
+        n_states = n_comp + len(ms['gstates'])
+        same = [i for i in range(n_comp, n_states) if i != admin['comp']] if admin['comp'] >= n_comp else []
+        if same and gen.chance(draw, 0.6):
+            admin['prev'] = [draw(st.sampled_from(same)), admin['direct']]      # same component, same flag
+        else:
+            admin['prev'] = [draw(st.integers(0, n_states - 1)), draw(st.booleans())]
     protocol = None
     reg = draw(_regimen())
     if gen.chance(draw, 0.15):
@@ -124,8 +136,19 @@ def classify(spec):
     if spec['mode'] == 'data':
         labs.append('ids:' + spec['id_style'])
         labs.append('dur:' + spec['with_dur'])
+        nd = [len(i['doses']) for i in spec['indiv']]
+        if any(n == 0 and any(m > 0 for m in nd[:k]) for k, n in enumerate(nd)):
+            labs.append('data:undosed_after_dosed')
         return labs
     labs.append('direct' if spec['admin']['direct'] else 'indirect')
+    if spec['admin'].get('prev'):
+        labs.append('rerouted')
+        ms_ = spec['ms']
+        if ms_ is not None and min(spec['admin']['prev'][0], spec['admin']['comp']) >= len(ms_['comps']) and \
+                bool(spec['admin']['prev'][1]) == bool(spec['admin']['direct']):
+            labs.append('rerouted:same_component')
+    if spec['ms'] is not None and spec['admin']['comp'] >= len(spec['ms']['comps']):
+        labs.append('route:global_state')
     if spec['lib']:
         labs.append('lib_pk')
     if spec['protocol'] is not None:
@@ -178,9 +201,20 @@ def _build_model(spec):
     else:
         ms = spec['ms']
         M = sbmlgen.build(ms, chi.PKPDModel)
-        comp = ms['comps'][spec['admin']['comp']]
-        M.set_administration(comp['id'], amount_var='%s_amount' % comp['sid'], direct=spec['admin']['direct'])
+        if spec['admin'].get('prev'):
+            c0, v0 = _target(ms, spec['admin']['prev'][0])
+            M.set_administration(c0, amount_var=v0, direct=bool(spec['admin']['prev'][1]))
+        c1, v1 = _target(ms, spec['admin']['comp'])
+        M.set_administration(c1, amount_var=v1, direct=spec['admin']['direct'])
     return M, ms
+
+
+def _target(ms, idx):
+    """(component, amount variable) of state idx (compartments first, then the states of 'global')."""
+    if idx < len(ms['comps']):
+        c = ms['comps'][idx]
+        return c['id'], '%s_amount' % c['sid']
+    return 'global', ms['gstates'][idx - len(ms['comps'])]['id']
 
 
 def _events(spec, t_end):
@@ -235,7 +269,15 @@ def check(case):
                              Duration=np.nan))
         rng = np.random.RandomState(s['shuffle'])
         order = rng.permutation(len(rows))
-        df = pd.DataFrame([rows[j] for j in order])
+        rows = [rows[j] for j in order]
+        # (the measurements of an individual appear in time order: LogLikelihood rejects decreasing times and the
+        # controller hands the rows over as they come)
+        for i in range(len(ids)):
+            pos = [k for k, r in enumerate(rows) if r['ID'] is ids[i] and isinstance(r['Observable'], str)]
+            srt = sorted((rows[k] for k in pos), key=lambda r: r['Time'])
+            for k, r in zip(pos, srt):
+                rows[k] = r
+        df = pd.DataFrame(rows)
         dur_key = 'Duration'
         if s['with_dur'] == 'nocol':
             df = df.drop(columns=['Duration'])
@@ -259,6 +301,34 @@ def check(case):
                            what='dose events (time, duration, rate) of individual %s' % ids[i])
                 for e in regs[str(ids[i])].events():
                     case.true(e.period() == 0 and e.multiplier() == 0, 'dataset dose events must not repeat')
+        # the likelihood of every individual is simulated under THAT individual's dose events (also none at all)
+        with case.clause('controller_delivery'):
+            import pints
+            ctrl.set_log_prior(pints.ComposedLogPrior(*[pints.UniformLogPrior(0.0, 100.0) for _ in range(4)]))
+            posts = [ctrl.get_log_posterior(str(i)) for i in ids]
+            theta = np.array([0.5, 2.0, 0.7, 0.8])
+            lp = -4.0 * np.log(100.0)
+            for order_pass in (0, 1):
+                # (second pass in reverse order: the objects are independent of the order they are used in)
+                for P in (posts if order_pass == 0 else list(reversed(posts))):
+                    pid = P.get_id()
+                    i = [str(v) for v in ids].index(str(pid))
+                    ind = s['indiv'][i]
+                    ev = []
+                    for d in ind['doses']:
+                        dur = 0.01 if (d['dur'] is None or dur_key is None) else d['dur']
+                        ev.append((d['t'], dur, d['dose'] / dur))
+                    tm = np.array(sorted(m['t'] for m in ind['meas']), dtype=float)
+                    obs = np.array([m['v'] for m in sorted(ind['meas'], key=lambda m: m['t'])], dtype=float)
+                    amount = np.real(sbmlgen.ref_simulate(PK_MS, theta[:3], tm, ['central.drug_amount'],
+                                                          dict(comp=0, direct=True), ev))[0]
+                    conc = amount / theta[1]
+                    want = lp + float(np.sum(-0.5 * np.log(2 * np.pi) - np.log(theta[3])
+                                             - (obs - conc) ** 2 / (2 * theta[3] ** 2)))
+                    if len(set(tm.tolist())) < len(tm):
+                        continue          # tied measurement times: the order of the observations is not defined here
+                    case.close(P(theta.copy()), want, rtol=1e-6, atol=1e-8,
+                               what='log-posterior of individual %s under its own %d dose events' % (pid, len(ev)))
         with case.clause('input_unchanged'):
             case.true(df.equals(before) and list(df.columns) == list(before.columns),
                       "the caller's data frame was modified by set_data")
@@ -275,7 +345,7 @@ def check(case):
     with case.clause('names'):
         case.equal(M.parameters(), names, 'parameter names after set_administration')
         case.equal(M.n_parameters(), len(names), 'n_parameters after set_administration')
-        case.equal(M.administration(), {'compartment': ms['comps'][admin['comp']]['id'], 'direct': admin['direct']},
+        case.equal(M.administration(), {'compartment': _target(ms, admin['comp'])[0], 'direct': admin['direct']},
                    'administration()')
 
     if s['mode'] == 'sim':
